@@ -61,4 +61,4 @@ def run(res, only=None):
 def replay(res, path, only=None):
     import json
     fam = json.load(open(path)).get("case", {}).get("fam")
-    return core.generic_replay(res, path, {"lane": "lane", "lin": "lin", "chain20": "chain", "hid": "hid"}.get(fam, "lane"), env_keys=())
+    return core.replay_dispatch(res, path, {"lane": "lane", "lin": "lin", "chain20": "chain", "hid": "hid"}.get(fam, "lane"), env_keys=())
